@@ -18,10 +18,10 @@ import (
 
 func (s *Server) diagnoseRaw(input string, listener *SyslErrorListener) parser.ISysl_fileContext {
 	var chars = antlr.NewInputStream(input)
-	var lexer = parser.NewSyslLexer(chars)
+	var lexer = parser.NewThreadSafeSyslLexer(chars)
 	defer parser.DeleteLexerState(lexer)
 	var tokens = antlr.NewCommonTokenStream(lexer, antlr.TokenDefaultChannel)
-	var parser = parser.NewSyslParser(tokens)
+	var parser = parser.NewThreadSafeSyslParser(tokens)
 
 	parser.GetInterpreter().SetPredictionMode(antlr.PredictionModeSLL)
 	parser.RemoveErrorListeners()
